@@ -125,14 +125,23 @@ def run(ctx):
                     if req[dim] > cap[dim] - sum(o[dim] for o in others):
                         expect, why = 'reject', dim
                         break
+                # the traits the reservation carries once accepted: the request's, or - for an update that
+                # names none (absent, or an empty list, which the directory update does not clear) - the stored ones
+                carried = list(rsrc.get('traits') or [])
+                kept = ''
+                if verb == 'update' and not carried and mirror[key]['traits']:
+                    carried = list(mirror[key]['traits'])
+                    kept = ':update-keeps-stored-traits:%s' % ('empty-list' if 'traits' in rsrc else 'absent')
                 if expect == 'accept':
-                    for t in rsrc.get('traits', []):
+                    for t in carried:
                         if t in cap['limits']:
                             sh = [o for o in others if t in o['traits']]
                             shared = shared or bool(sh)
                             for dim in ('cpu', 'disk', 'memory'):
                                 if req[dim] > cap['limits'][t][dim] - sum(o[dim] for o in sh):
                                     expect, why = 'reject', '%s:trait' % dim
+                                    if kept and t not in (rsrc.get('traits') or []):
+                                        why += kept
                                     break
                         if expect == 'reject':
                             break
@@ -180,7 +189,8 @@ def run(ctx):
                                        partition=old['partition'], traits=list(rsrc.get('traits', old['traits'])))
                 continue
             if outcome == 'accept' and expect == 'reject':
-                ctx.violation('accepted-but-does-not-fit:%s' % why.split(':')[0] + (':trait-limit' if 'trait' in why else ''),
+                ctx.violation('accepted-but-does-not-fit:%s' % why.split(':')[0] + (':trait-limit' if 'trait' in why else '') +
+                              (':' + ':'.join(why.split(':')[2:]) if why.count(':') > 1 else ''),
                               '%s %s %r accepted although %s does not fit' % (verb, rid, rsrc, why), case=case)
                 break
             if outcome == 'reject' and expect == 'accept':
